@@ -105,7 +105,10 @@ def main():
   rep = vlib.Report(PROP, "proof")
   from translate import po2gen
   gen = po2gen.emit(vlib.GEN)
-  info = vlib.build_obligations(PROP, gen_files=[gen], extra_files=[os.path.join(vlib.COQ, "theories", "Link", "Po2Link.v")])
+  from translate import reportgen
+  rgen = reportgen.emit(vlib.GEN)
+  info = vlib.build_obligations(PROP, gen_files=[gen, rgen], extra_files=[os.path.join(vlib.COQ, "theories", "Link", "Po2Link.v"),
+                                                                         os.path.join(vlib.COQ, "theories", "Link", "ReportLink.v")])
   errs = rep.obligations(info, "python3 tools/translate/po2gen.py coq/gen && coqc coq/gen/Po2Gen.v && coqc coq/theories/Link/Po2Link.v && coqc coq/theories/Properties/C03.v")
   for e in errs:
     rep.violation("obligation-" + os.path.basename(e["file"]), "proof obligation no longer checks: " + e["error"][-400:],
